@@ -254,12 +254,11 @@ Ltac done := cbn in *; intros; try discriminate; try congruence; auto;
           | eapply refresh_binding_ni; eassumption | eapply validate_pop_ni; eassumption ]].
 
 (* ---- the sequential run and the faulty run with a fault-free plan coincide ---- *)
-Definition no_faults : nat -> fault := fun _ => FNone.
-Lemma run_fault_none {A} (p : prog A) : forall st n,
-  fst (run_fault no_faults n p st) = run_seq p st.
+Lemma run_fault_none {A} plan (p : prog A) : (forall k, plan k = FNone) -> forall st n,
+  fst (run_fault plan n p st) = run_seq p st.
 Proof.
-  induction p as [a|c k IH|o p IH]; intros st n; cbn; auto.
-  destruct (exec c st) as [st' r]. apply IH.
+  intros HP. induction p as [a|c k IH|o p IH]; intros st n; cbn; auto.
+  rewrite HP. cbn. destruct (exec c st) as [st' r]. apply IH.
 Qed.
 
 (* ---- no handler of the model returns OPanic ---- *)
@@ -555,4 +554,319 @@ Proof.
   destruct (snd (run_seq (authenticated w (q_cred r)) st)); [|solve [done]].
   destruct (negb (q_allowed r)); [solve [done]|].
   destruct (q_tok r); try done; rewrite run_seq_bind; cbn; apply introspection_info_frame.
+Qed.
+
+(* ---- the authorization endpoint, /par, /bc-authorize ---- *)
+Local Transparent mint.
+Lemma is_nil_mint n k : is_nil (mint n k) = false.
+Proof.
+  unfold is_nil, mint. apply N.eqb_neq. destruct k; cbn; lia.
+Qed.
+Local Opaque mint.
+
+(* ctx.SaveAuthnSession refuses a session without exactly one index: the discipline the stored
+   sessions obey (an invariant of every history: every ASave goes through save_a) *)
+Definition one_index (st : store) : Prop := forall s, In s (st_asess st) -> n_indexes s = 1%nat.
+
+Lemma one_index_cb s : n_indexes s = 1%nat -> is_nil (a_cb s) = false ->
+  is_nil (a_par s) = true /\ is_nil (a_code s) = true /\ is_nil (a_ciba s) = true.
+Proof.
+  unfold n_indexes. destruct (is_nil (a_cb s)), (is_nil (a_par s)), (is_nil (a_code s)), (is_nil (a_ciba s));
+    cbn; intros; try discriminate; auto.
+Qed.
+Lemma one_index_par s : n_indexes s = 1%nat -> is_nil (a_par s) = false ->
+  is_nil (a_cb s) = true /\ is_nil (a_code s) = true /\ is_nil (a_ciba s) = true.
+Proof.
+  unfold n_indexes. destruct (is_nil (a_cb s)), (is_nil (a_par s)), (is_nil (a_code s)), (is_nil (a_ciba s));
+    cbn; intros; try discriminate; auto.
+Qed.
+
+Lemma get_client_clients w i st1 st2 : st_clients st1 = st_clients st2 ->
+  snd (run_seq (get_client w i) st1) = snd (run_seq (get_client w i) st2).
+Proof. unfold get_client. intros H. destruct (find_client i (w_static w)); cbn; [reflexivity|]. rewrite H. destruct (find_client i (st_clients st2)); reflexivity. Qed.
+Lemma find_client_id i l c : find_client i l = Some c -> c_id c = i.
+Proof. unfold find_client. intros H. apply find_some in H as [_ H]. apply N.eqb_eq in H. exact H. Qed.
+Lemma get_client_id w i st c : snd (run_seq (get_client w i) st) = Some c -> c_id c = i.
+Proof.
+  unfold get_client. destruct (find_client i (w_static w)) eqn:E; cbn.
+  - intros H; inversion H; subst. eapply find_client_id; eauto.
+  - destruct (find_client i (st_clients st)) eqn:E2; cbn; intros H; inversion H; subst. eapply find_client_id; eauto.
+Qed.
+
+Lemma authenticate_clients w n now s pol st :
+  st_clients (fst (run_seq (authenticate w n now s pol) st)) = st_clients st.
+Proof.
+  unfold authenticate, save_a. destruct pol.
+  - cbn. rewrite run_seq_bind, get_client_frame.
+    destruct (snd (run_seq (get_client w (a_client s)) st)); [|reflexivity].
+    destruct st as [cl ass gs]. crunch0; reflexivity.
+  - destruct st as [cl ass gs]. crunch0; reflexivity.
+  - destruct st as [cl ass gs]. crunch0; reflexivity.
+  - destruct st as [cl ass gs]. crunch0; reflexivity.
+Qed.
+
+Definition ares_ok (w : world) (s : asession) (pol : pol_reply) (st : store) (a : ares) : Prop :=
+  match a with
+  | ADone o => is_internal o = false
+  | AFail e => aerr_code e = EInternalError ->
+               pol = PolFailWith EInternalError \/ snd (run_seq (get_client w (a_client s)) st) = None
+  end.
+
+Lemma authenticate_5xx w n now s pol st :
+  n_indexes s = 1%nat -> is_nil (a_cb s) = false ->
+  ares_ok w s pol st (snd (run_seq (authenticate w n now s pol) st)).
+Proof.
+  intros H1 Hcb. destruct (one_index_cb s H1 Hcb) as [Hp [Hc Hi]].
+  unfold authenticate, save_a, ares_ok. destruct pol.
+  - cbn. rewrite run_seq_bind, get_client_frame.
+    destruct (snd (run_seq (get_client w (a_client s)) st)) as [c|]; [|cbn; auto].
+    unfold n_indexes. cbn. rewrite Hp, Hi, is_nil_mint. cbn.
+    destruct st as [cl ass gs]. crunch0; done.
+  - cbn. unfold n_indexes in *. cbn. rewrite H1. cbn. reflexivity.
+  - destruct st as [cl ass gs]. cbn. discriminate.
+  - destruct st as [cl ass gs]. cbn. intros ->. left; reflexivity.
+Qed.
+
+Lemma start_session_5xx w n now c s r st :
+  is_nil (a_code s) = true -> is_nil (a_ciba s) = true ->
+  ares_ok w s (ar_pol r) st (snd (run_seq (start_session w n now c s r) st)).
+Proof.
+  intros Hc Hi. unfold start_session.
+  break_goal; [cbn; discriminate|]. break_goal; [cbn; discriminate|]. cbn.
+  match goal with |- ares_ok _ _ _ _ (snd (run_seq (authenticate _ _ _ ?s' _) _)) =>
+    pose proof (authenticate_5xx w n now s' (ar_pol r) st) as H end.
+  cbn in H. unfold n_indexes in H. cbn in H. rewrite Hc, Hi, is_nil_mint in H. cbn in H.
+  specialize (H eq_refl eq_refl). exact H.
+Qed.
+
+Lemma render_internal cfg c e : is_internal (render_aerr cfg c e) = true -> aerr_code e = EInternalError.
+Proof. destruct e as [x|x p]; cbn; destruct x; cbn; congruence. Qed.
+
+Lemma find_In {A} f (l : list A) x : find f l = Some x -> In x l /\ f x = true.
+Proof. apply find_some. Qed.
+
+Lemma init_auth_5xx w n now r st : one_index st ->
+  is_internal (snd (run_seq (init_auth w n now r) st)) = true -> ar_pol r = PolFailWith EInternalError.
+Proof.
+  intros HI. unfold init_auth. break_goal; [solve [done]|].
+  rewrite run_seq_bind, get_client_frame.
+  destruct (snd (run_seq (get_client w (ar_client r)) st)) as [c|] eqn:EC; [|solve [done]].
+  pose proof (get_client_id _ _ _ _ EC) as Hid.
+  break_goal; [solve [done]|]. break_goal.
+  - break_goal; [solve [done]|]. cbn. unfold reply_a.
+    destruct (find _ _) as [s|] eqn:EF; [|solve [done]].
+    apply find_In in EF as [Hin Hpar]. apply N.eqb_eq in Hpar.
+    assert (Hnp : is_nil (a_par s) = false) by (rewrite Hpar; assumption).
+    destruct (one_index_par s (HI s Hin) Hnp) as [_ [Hc Hi]].
+    destruct (negb (ideq (a_client s) (ar_client r))) eqn:Eid; [cbn; discriminate|].
+    apply negb_false_iff, N.eqb_eq in Eid.
+    match goal with |- context [match ?v with Some _ => _ | None => _ end] => destruct v as [e|] eqn:EV end.
+    + cbn. intros H. apply render_internal in H. exfalso.
+      revert EV. repeat break_goal; intros EV; inversion EV; subst; cbn in H; try discriminate.
+      eapply validate_in_out_ni; eauto.
+    + rewrite run_seq_bind. cbn.
+      match goal with |- context [run_seq (start_session w n now c ?s' r) st] =>
+        pose proof (start_session_5xx w n now c s' r st) as HS;
+        destruct (snd (run_seq (start_session w n now c s' r) st)) as [o|e] end.
+      * cbn in *. destruct (is_fapi _); cbn in HS; rewrite (HS Hc Hi); discriminate.
+      * cbn. intros H. apply render_internal in H.
+        destruct (is_fapi _); cbn in HS; destruct (HS Hc Hi H) as [HH|HH]; auto; exfalso;
+          rewrite Eid, EC in HH; discriminate.
+  - destruct (validate_params _ _ _) as [e|] eqn:EV.
+    + cbn. intros H. apply render_internal in H. exfalso. eapply validate_params_ni; eauto.
+    + rewrite run_seq_bind.
+      match goal with |- context [run_seq (start_session w n now c ?s' r) st] =>
+        pose proof (start_session_5xx w n now c s' r st eq_refl eq_refl) as HS;
+        destruct (snd (run_seq (start_session w n now c s' r) st)) as [o|e] end.
+      * cbn in *. rewrite HS. discriminate.
+      * cbn. intros H. apply render_internal in H. destruct (HS H) as [HH|HH]; auto.
+        exfalso. cbn in HH. rewrite Hid, EC in HH. discriminate.
+Qed.
+
+Lemma continue_auth_5xx w n now r st : one_index st -> is_nil (cb_id r) = false ->
+  is_internal (snd (run_seq (continue_auth w n now r) st)) = true -> cb_pol r = PolFailWith EInternalError.
+Proof.
+  intros HI Hcb. unfold continue_auth. cbn. unfold reply_a.
+  destruct (find _ _) as [s|] eqn:EF; [|solve [done]].
+  apply find_In in EF as [Hin Hc]. apply N.eqb_eq in Hc.
+  assert (Hnc : is_nil (a_cb s) = false) by (rewrite Hc; assumption).
+  destruct (geb _ _); [solve [done]|].
+  rewrite run_seq_bind.
+  pose proof (authenticate_5xx w n now s (cb_pol r) st (HI s Hin) Hnc) as HA.
+  pose proof (authenticate_clients w n now s (cb_pol r) st) as HC.
+  destruct (run_seq (authenticate w n now s (cb_pol r)) st) as [st1 a]. cbn in *.
+  destruct a as [o|e]; cbn in *.
+  - rewrite HA. discriminate.
+  - rewrite run_seq_bind. rewrite (get_client_clients w (a_client s) st1 st HC).
+    destruct (snd (run_seq (get_client w (a_client s)) st)) as [c|] eqn:EC; cbn; [|discriminate].
+    intros H. apply render_internal in H. destruct (HA H) as [HH|HH]; [assumption|discriminate].
+Qed.
+
+Lemma push_auth_5xx w n now r st : is_internal (snd (run_seq (push_auth w n now r) st)) = false.
+Proof.
+  unfold push_auth. break_goal; [reflexivity|].
+  rewrite run_seq_bind, authenticated_frame.
+  destruct (snd (run_seq (authenticated w (pr_cred r)) st)) as [c|]; [|reflexivity].
+  break_goal; [reflexivity|].
+  match goal with |- context [match ?v with Some _ => _ | None => _ end] => destruct v as [e|] eqn:EV end.
+  - assert (aerr_code e <> EInternalError).
+    { revert EV. break_goal; intros EV; [eapply validate_params_ni|eapply validate_optionals_ni]; eauto. }
+    destruct e as [x|x p]; cbn in *; destruct x; cbn; congruence.
+  - break_goal; [reflexivity|].
+    match goal with |- context [match ?v with Some _ => _ | None => _ end] => destruct v as [e|] eqn:EJ end.
+    + cbn. destruct e; try reflexivity. exfalso. revert EJ. repeat break_goal; try discriminate. apply validate_jwt_ni.
+    + unfold save_a, n_indexes. cbn. rewrite is_nil_mint. cbn. reflexivity.
+Qed.
+
+Lemma init_back_auth_5xx w n now r st : is_internal (snd (run_seq (init_back_auth w n now r) st)) = false.
+Proof.
+  unfold init_back_auth. break_goal; [reflexivity|].
+  rewrite run_seq_bind, authenticated_frame.
+  destruct (snd (run_seq (authenticated w (br_cred r)) st)) as [c|]; [|reflexivity].
+  repeat (break_goal; [reflexivity|]).
+  destruct (validate_optionals _ _ _) as [e|] eqn:EV.
+  - pose proof (validate_optionals_ni _ _ _ _ EV). destruct e as [x|x p]; cbn in *; destruct x; cbn; congruence.
+  - match goal with |- context [match ?v with Some _ => _ | None => _ end] => destruct v as [e|] eqn:EJ end.
+    + cbn. destruct e; try reflexivity. exfalso. revert EJ. repeat break_goal; try discriminate. apply validate_binding_ni.
+    + break_goal; [reflexivity|]. unfold save_a, n_indexes. cbn. rewrite is_nil_mint. cbn. reflexivity.
+Qed.
+
+(* ---- the one-index discipline holds in every reachable state ---- *)
+From Verif Require Import Hoare.
+Definition QA1 (s : asession) : Prop := n_indexes s = 1%nat.
+Definition QG1 (g : gsession) : Prop := True.
+Notation sok := (saves_ok QG1 QA1).
+
+Lemma save_a_ok {A} s (k : reply -> prog A) : (forall r, sok (k r)) -> sok (save_a s k).
+Proof.
+  intros H. unfold save_a. destruct (Nat.eqb (n_indexes s) 1) eqn:E; [|apply H].
+  cbn. split; [apply Nat.eqb_eq, E|apply H].
+Qed.
+Lemma sok_ro {A} (p : prog A) : leaves (fun _ => True) p -> (forall B (f : A -> prog B), (forall a, sok (f a)) -> sok (bind p f)) -> True.
+Proof. auto. Qed.
+Lemma get_client_sok w i : sok (get_client w i).
+Proof. unfold get_client. destruct (find_client i (w_static w)); cbn; auto. split; auto. intros r; destruct r; exact I. Qed.
+Lemma authenticated_sok w cr : sok (authenticated w cr).
+Proof.
+  unfold authenticated. destruct (is_nil _); [exact I|].
+  apply saves_ok_bind; [apply get_client_sok|]. intros [c|]; [|exact I]. destruct (orb _ _); exact I.
+Qed.
+Lemma introspection_info_sok now p : sok (introspection_info now p).
+Proof. unfold introspection_info. destruct (classify p); cbn; auto; (split; [exact I|]); intros r; destruct r; try exact I; destruct (geb _ _); exact I. Qed.
+
+Local Opaque save_a.
+Ltac sv :=
+  repeat (cbn in *; intros;
+          try match goal with
+              | |- True => exact I
+              | |- _ /\ _ => split
+              | |- QG1 _ => exact I
+              | |- saves_ok _ _ (save_a _ _) => apply save_a_ok
+              end;
+          try break_goal).
+Ltac sv_auth := apply saves_ok_bind; [apply authenticated_sok|]; intros oc; destruct oc as [c|]; [|exact I].
+
+Lemma code_grant_sok w n now r : sok (code_grant w n now r).
+Proof. unfold code_grant. repeat (break_goal; [exact I|]). sv_auth. sv. Qed.
+Lemma refresh_grant_sok w n now r : sok (refresh_grant w n now r).
+Proof. unfold refresh_grant. repeat (break_goal; [exact I|]). sv_auth. sv. Qed.
+Lemma cc_grant_sok w n now r : sok (cc_grant w n now r).
+Proof. unfold cc_grant. repeat (break_goal; [exact I|]). sv_auth. sv. Qed.
+Lemma ciba_grant_sok w n now r : sok (ciba_grant w n now r).
+Proof. unfold ciba_grant. repeat (break_goal; [exact I|]). sv_auth. sv. Qed.
+Lemma authenticate_sok w n now s pol : sok (authenticate w n now s pol).
+Proof.
+  unfold authenticate. destruct pol.
+  - cbn. apply saves_ok_bind; [apply get_client_sok|]. intros [c|]; [|exact I]. sv.
+  - sv.
+  - sv.
+  - sv.
+Qed.
+Lemma start_session_sok w n now c s r : sok (start_session w n now c s r).
+Proof. unfold start_session. repeat (break_goal; [exact I|]). cbn. apply authenticate_sok. Qed.
+Lemma init_auth_sok w n now r : sok (init_auth w n now r).
+Proof.
+  unfold init_auth. break_goal; [exact I|].
+  apply saves_ok_bind; [apply get_client_sok|]. intros [c|]; [|exact I].
+  break_goal; [exact I|]. break_goal.
+  - break_goal; [exact I|]. cbn. split; [exact I|]. intros rp. destruct rp; try exact I.
+    match goal with |- saves_ok _ _ (match ?v with Some _ => _ | None => _ end) => destruct v end.
+    + cbn. split; [exact I|]. intros rd; destruct rd; exact I.
+    + apply saves_ok_bind; [apply start_session_sok|]. intros; exact I.
+  - break_goal; [exact I|]. apply saves_ok_bind; [apply start_session_sok|]. intros; exact I.
+Qed.
+Lemma continue_auth_sok w n now r : sok (continue_auth w n now r).
+Proof.
+  unfold continue_auth. cbn. split; [exact I|]. intros rp. destruct rp; try exact I.
+  break_goal; [exact I|]. apply saves_ok_bind; [apply authenticate_sok|]. intros [o|e]; [exact I|].
+  apply saves_ok_bind; [apply get_client_sok|]. intros [c|]; exact I.
+Qed.
+Lemma push_auth_sok w n now r : sok (push_auth w n now r).
+Proof. unfold push_auth. break_goal; [exact I|]. sv_auth. sv. Qed.
+Lemma init_back_auth_sok w n now r : sok (init_back_auth w n now r).
+Proof. unfold init_back_auth. break_goal; [exact I|]. sv_auth. sv. Qed.
+Lemma introspect_sok w now r : sok (introspect w now r).
+Proof.
+  unfold introspect. destruct (negb (cf_introspection _)); [exact I|]. sv_auth. destruct (negb (q_allowed r)); [exact I|].
+  destruct (q_tok r); try exact I; (apply saves_ok_bind; [apply introspection_info_sok|]; intros; exact I).
+Qed.
+Lemma revoke_sok w now r : sok (revoke w now r).
+Proof.
+  unfold revoke. destruct (negb (cf_revocation _)); [exact I|]. sv_auth. destruct (negb (q_allowed r)); [exact I|].
+  apply saves_ok_bind; [apply introspection_info_sok|]. intros i. sv.
+Qed.
+Lemma userinfo_sok w now r : sok (userinfo w now r).
+Proof.
+  unfold userinfo. repeat (break_goal; try exact I). cbn. split; [exact I|]. intros rp.
+  repeat (break_goal; try exact I). apply saves_ok_bind; [apply get_client_sok|]. intros [c|]; exact I.
+Qed.
+Lemma notify_success_sok w n now a hg : sok (notify_success w n now a hg).
+Proof.
+  unfold notify_success. cbn. split; [exact I|]. intros rp. destruct rp; try exact I.
+  apply saves_ok_bind; [apply get_client_sok|]. intros [c|]; [|exact I]. sv.
+Qed.
+Lemma notify_failure_sok w a : sok (notify_failure w a).
+Proof.
+  unfold notify_failure. cbn. split; [exact I|]. intros rp. destruct rp; try exact I.
+  apply saves_ok_bind; [apply get_client_sok|]. intros [c|]; [|exact I]. sv.
+Qed.
+Lemma lift_sok {A B} (p : prog A) (f : A -> B) : sok p -> sok (bind p (fun x => Ret (f x))).
+Proof. intros H. apply saves_ok_bind; [exact H|]. intros; exact I. Qed.
+Lemma handler_sok w n now o : sok (handler w n now o).
+Proof.
+  destruct o; try destruct g; cbv beta iota zeta delta [handler]; try (apply lift_sok with (f := Out)).
+  - apply init_auth_sok.
+  - apply continue_auth_sok.
+  - apply push_auth_sok.
+  - apply cc_grant_sok. - apply code_grant_sok. - apply refresh_grant_sok.
+  - exact I. - exact I.
+  - apply ciba_grant_sok.
+  - apply introspect_sok.
+  - apply revoke_sok.
+  - apply userinfo_sok.
+  - unfold token_info. apply saves_ok_bind; [apply introspection_info_sok|]. intros; exact I.
+  - unfold token_info_from_request. break_goal; [exact I|].
+    apply saves_ok_bind; [apply introspection_info_sok|]. intros i. sv.
+  - apply init_back_auth_sok.
+  - apply saves_ok_bind; [apply notify_success_sok|]. intros; exact I.
+  - apply saves_ok_bind; [apply notify_failure_sok|]. intros; exact I.
+  - exact I.
+Qed.
+
+Lemma one_index_run {A} (p : prog A) st : sok p -> one_index st -> one_index (fst (run_seq p st)).
+Proof. intros Hp H. exact (proj2 (run_seq_ok QG1 QA1 p st Hp (conj (fun _ _ => I) H))). Qed.
+Lemma one_index_step w st n o : one_index (s_store st) -> one_index (s_store (fst (step w st n o))).
+Proof.
+  intros H. unfold step, step_with.
+  assert (G : forall p : prog obs, sok p ->
+     one_index (s_store (fst (let '(sto, x) := run_seq p (s_store st) in (mkState sto (s_now st), x))))).
+  { intros p Hp. pose proof (one_index_run p (s_store st) Hp H) as H0. destruct (run_seq p (s_store st)); exact H0. }
+  destruct o; try exact (G _ (handler_sok w n (s_now st) _)). exact H.
+Qed.
+Lemma one_index_reachable w dyn ops :
+  one_index (s_store (fst (run_from w (init_state dyn) 0 ops))).
+Proof.
+  apply (run_from_inv (fun st => one_index (s_store st))).
+  - intros st n o. apply one_index_step.
+  - intros s Hs. destruct Hs.
 Qed.
